@@ -142,6 +142,16 @@ b("B33", OWNER,
   "\t\tlet e = match tx.ttl_cutoff_height {\n\t\t\tSome(e) => e,\n\t\t\tNone => continue,\n\t\t};\n\t\tif tip.0 < e {\n\t\t\tcontinue;\n\t\t}\n\t\twallet_lock!(wallet_inst, w);\n\t\tlet parent_key_id = w.parent_key_id();\n\t\ttx::cancel_tx(&mut **w, keychain_mask, &parent_key_id, Some(tx.id), None)?;\n",
   "expiry walk rewritten in early-continue style")
 
+SCAN = "libwallet/src/internal/scan.rs"
+b("B34", SCAN, "\t\t\tacct_index += 1;", "\t\t\tacct_index = acct_index + 1;", "counter increment written out")
+b("B35", SCAN, "\t\t\tlast_retrieved_return_index = last_retrieved_index;\n\t\t\tbreak;\n\t\t}\n\t\tstart_index = last_retrieved_index + 1;", "\t\t\tlast_retrieved_return_index = last_retrieved_index;\n\t\t\tbreak;\n\t\t}\n\t\tstart_index = 1 + last_retrieved_index;", "addition operands swapped")
+b("B36", "libwallet/src/slate.rs", "\t\tif fee > tx.fee() {", "\t\tif tx.fee() < fee {", "minimum-fee comparison mirrored")
+b("B37", UPD, "\t\tif out.status == OutputStatus::Unconfirmed\n\t\t\t&& out.height > 0\n\t\t\t&& out.height < height - 50\n\t\t\t&& out.is_coinbase\n", "\t\tif out.is_coinbase\n\t\t\t&& out.status == OutputStatus::Unconfirmed\n\t\t\t&& out.height > 0\n\t\t\t&& out.height < height - 50\n", "conjuncts reordered")
+b("B38", SEL, "\t\twhile total < amount_with_fee {", "\t\twhile amount_with_fee > total {", "loop test mirrored")
+b("B39", OWNER, "\tif !update_wallet_state(\n\t\twallet_inst.clone(),\n\t\tkeychain_mask,\n\t\tstatus_send_channel,\n\t\tfalse,\n\t)? {\n\t\treturn Err(Error::TransactionCancellationError(", "\tlet refreshed = update_wallet_state(\n\t\twallet_inst.clone(),\n\t\tkeychain_mask,\n\t\tstatus_send_channel,\n\t\tfalse,\n\t)?;\n\tif !refreshed {\n\t\treturn Err(Error::TransactionCancellationError(", "refresh result bound to a local first")
+b("B40", "libwallet/src/internal/keys.rs", "p.path[0] = ChildNumber::from(<u32>::from(p.path[0]) + 1);", "p.path[0] = ChildNumber::from(1 + <u32>::from(p.path[0]));", "addition operands swapped")
+b("B41", "controller/src/controller.rs", "\t\tmatches!(val[\"method\"].as_str(), Some(\"init_secure_api\"))", "\t\tval[\"method\"].as_str() == Some(\"init_secure_api\")", "matches! rewritten as == on Option<&str>")
+
 
 def _apply(mu, repo_copy):
     p = os.path.join(repo_copy, mu["file"])
